@@ -190,7 +190,6 @@ struct M : Machine {
       if (Peek::directed(G) && Peek::nodes(G).count(a) && Peek::nodes(G).count(b)) {
         long ea = climbEnd(a), eb = climbEnd(b);
         if (ea == -2 || eb == -2) return "skip-cycle";
-        if (ea >= 0 && eb >= 0 && ea != eb && inc) return "ub";
       }
       if (o == "t.path") return "l " + list(C.getNodePathBetweenTwoNodes(a, b, inc));
       return "l " + list(C.getEdgePathBetweenTwoNodes(a, b));
